@@ -11,3 +11,27 @@ MUTANTS = [
     {"name": "c02-noaction-as-failure", "checks": ["C02"],
      "edits": [(P, "                reporting_done=True,", "                reporting_done=False,")]},
 ]
+PA = "repid/data/_parameters.py"
+MUTANTS += [
+    {"name": "c04-tried-plus-2", "checks": ["C04"],
+     "edits": [(PA, 'object.__setattr__(copy.retries, "already_tried", copy.retries.already_tried + 1)', 'object.__setattr__(copy.retries, "already_tried", copy.retries.already_tried + 2)')]},
+    {"name": "c04-policy-arg-off-by-one", "checks": ["C04"],
+     "edits": [(P, "parameters._prepare_retry(actor.retry_policy(parameters.retries.already_tried + 1))", "parameters._prepare_retry(actor.retry_policy(max(parameters.retries.already_tried, 1)))")]},
+    {"name": "c04-retry-forgets-delay", "checks": ["C04"],
+     "edits": [(PA, '            datetime.now() + next_retry,\n', '            datetime.now(),\n')]},
+    {"name": "c04-redis-delay-floor", "checks": ["C04", "C05"],
+     "edits": [("repid/connections/redis/utils.py", "        return math.ceil(params.delay.next_execution_time.timestamp())", "        return int(params.delay.next_execution_time.timestamp())")]},
+]
+R = "repid/_runner.py"
+MUTANTS += [
+    {"name": "c10-revert-started-limit", "checks": ["C10"],
+     "edits": [(R, "            if self._tasks_started >= self.max_tasks:\n                break  # never start more than max_tasks executions\n", ""),
+               (R, "            if self._tasks_started >= self.max_tasks:\n                # the limit was reached", "            if False:\n                # the limit was reached")]},
+    {"name": "c10-limit-off-by-one", "checks": ["C10"],
+     "edits": [(R, "            if self._tasks_started >= self.max_tasks:\n                break  # never", "            if self._tasks_started > self.max_tasks:\n                break  # never"),
+               (R, "            if self._tasks_started >= self.max_tasks:\n                # the limit was reached", "            if self._tasks_started > self.max_tasks:\n                # the limit was reached")]},
+    {"name": "c10-stop-event-never-set", "checks": ["C10"],
+     "edits": [(R, "        if self.max_tasks_hit:\n            self.stop_consume_event.set()", "        if self.max_tasks_hit:\n            pass")]},
+    {"name": "c10-no-handback-on-cancel", "checks": ["C10", "C03"],
+     "edits": [(R, "                # consumption was stopped while this message waited for a free slot: hand it back\n                await self._hand_back(key)\n                raise", "                raise")]},
+]
